@@ -27,10 +27,11 @@ fn roundtrip<M: Clone + PartialEq + std::fmt::Debug + Serialize + for<'de> Deser
         buf.extend_from_slice(&wire[pos..pos + step]);
         pos += step;
         loop {
-            match dec.decode(&mut buf) {
-                Ok(Some(m)) => out.push(m),
-                Ok(None) => break,
-                Err(e) => return Err(format!("decode failed: {e}")),
+            match std::panic::catch_unwind(std::panic::AssertUnwindSafe(|| dec.decode(&mut buf))) {
+                Ok(Ok(Some(m))) => out.push(m),
+                Ok(Ok(None)) => break,
+                Ok(Err(e)) => return Err(format!("decode failed: {e}")),
+                Err(p) => return Err(format!("decode PANICKED: {}", p.downcast_ref::<String>().cloned().or(p.downcast_ref::<&str>().map(|s| s.to_string())).unwrap_or_default())),
             }
         }
     }
@@ -41,11 +42,13 @@ fn roundtrip<M: Clone + PartialEq + std::fmt::Debug + Serialize + for<'de> Deser
 
 fn main() {
     let _a = rp_core::args();
+    std::panic::set_hook(Box::new(|_| {}));
     let mut n = 0u64;
     let mut reported = std::collections::BTreeSet::new();
     let pool = [Msg::Unit, Msg::Text("hi".into()), Msg::Bytes(vec![1, 2, 3]), Msg::Empty(()), Msg::Text(String::new())];
     // every sequence of up to 3 messages from the pool, chunk patterns 1..=5 bytes and mixed
-    let patterns: Vec<Vec<usize>> = vec![vec![1], vec![2], vec![3], vec![4], vec![5], vec![1, 4], vec![4, 1], vec![7, 1, 2], vec![1000]];
+    let mut patterns: Vec<Vec<usize>> = vec![vec![1], vec![2], vec![3], vec![4], vec![5], vec![1, 4], vec![4, 1], vec![7, 1, 2], vec![1000]];
+    for k in 6..=24usize { patterns.push(vec![k, 1000]); }   // one split at every position of the first frames, rest in one piece
     for len in 1..=3usize {
         for code in 0..pool.len().pow(len as u32) {
             let mut c = code;
@@ -55,7 +58,7 @@ fn main() {
                 if let Err(e) = roundtrip(&msgs, 1024, p) {
                     if reported.insert("stream-roundtrip") {
                         rp_core::report(true, "stream-roundtrip", json!({"messages": format!("{msgs:?}"), "chunk_sizes": p}), json!(e),
-                            &["codec::Decoder@Codec::decode.ensures#complete_frame_decoded_and_consumed", "codec::Decoder@Codec::decode.ensures#needs_length_prefix", "codec::Decoder@Codec::decode.ensures#incomplete_frame_waits", "codec::Encoder@Codec::encode.ensures#ok_appends_exactly_one_frame"]);
+                            &["codec::Decoder@Codec::decode.ensures#complete_frame_decoded_and_consumed", "codec::Decoder@Codec::decode.safety", "codec::Decoder@Codec::decode.ensures#needs_length_prefix", "codec::Decoder@Codec::decode.ensures#incomplete_frame_waits", "codec::Encoder@Codec::encode.ensures#ok_appends_exactly_one_frame"]);
                     }
                 }
             }
